@@ -1,5 +1,5 @@
 (* C09 driver.  argv[1] = case file, optional argv[2] = the implementation's output for the same cases.
-   Case line:  <P|C><G|U|V><S|N>[:<elem>:<cmp>:<via>[:<store>]] <sentinel> <seq> <seq> ...   with <seq> = "-" (empty) or "k,k,k".
+   Case line:  <P|C><G|U|V><S|N>[:<elem>:<cmp>:<via>[:<store>]] <sentinel> [o=<i>,<i>,...] <seq> <seq> ...   with <seq> = "-" (empty) or "k,k,k".
    <elem>, <via> and <store> (element size, direct class / switch alias / moved, where the caller keeps the keys) do not
    exist in the model; <cmp> = gt | st- selects
    the instances with the comparator reversed (coq/C09/Instances.v), lt | st+ | df the ones with N.ltb.
@@ -38,12 +38,15 @@ let () =
         let vs = List.hd parts in
         let rev = (match parts with _ :: _ :: c :: _ -> c = "gt" || c = "st-" | _ -> false) in
         let v = parse_variant vs in
+        let (order, seqs) = (match seqs with
+          | o :: rest when String.length o >= 2 && String.sub o 0 2 = "o=" ->
+            (List.map (fun x -> n_of_int (int_of_string x)) (String.split_on_char ',' (String.sub o 2 (String.length o - 2))), rest)
+          | _ -> (List.mapi (fun i _ -> n_of_int i) seqs, seqs)) in
         let seqs = List.map parse_seq seqs in
         let general = (vs.[1] = 'V') in
         let sentn = n_of_int (int_of_string sent) in
-        let tr =
-          if general then (if rev then run_gNgt v sentn seqs else run_gN v sentn seqs)
-          else (if rev then run_Ngt v sentn seqs else run_N v sentn seqs) in
+        (* the model registers the players in the order of the case (BuildOrder.lt_build_order) *)
+        let tr = if general then run_goN rev v sentn order seqs else run_oN rev v sentn order seqs in
         let b = Buffer.create 64 in
         Buffer.add_string b (String.concat " " (List.map show_src tr));
         (match il with
